@@ -34,6 +34,7 @@ NOTES = {  # seed -> (detected_by, note) overriding / complementing the logged r
  'C38-2': ('C38 (left-map)', 'missed at first: no element was malformed UTF-8; caught after the element \\xffab was added to the str lists (and the model made byte-preserving)'),
  'C31-2': ('C31 (verdict, multi-plan runs)', 'missed at first (one plan per case); caught after multi-plan runs were added: three functions, every pass/fail assignment and registration order, run together with `*`, each plan must be reported on its own merits'),
  'C02-r2-2': ('C02 (declared-type-returned)', 'missed at first: the change introduces a TryLock, and the scheduler had no scheduling point while a lock is held just before its release (a reduction that is only sound for blocking locks), so a TryLock could never fail; caught after mkoverlay counts TryLock calls and sched.sh then builds the shim with a pre-unlock scheduling point (tag vtrylock)'),
+ 'C11-r2-1': ('C11 (reads)', 'missed at first: local values {1,2} and global values {3,4} never coincided, and the change only drops a local assignment whose value equals the visible global; caught after the leaf $GLOBAL.x=1 was added (witness `gx=1 x=1 gux`)'),
  'C26-r2-1': ('C26 (pipe-closed-once)', 'missed at first (the registry-level model cannot see a pipe being closed twice); caught after a counted pipe type and the clause "the registry closes a pipe object at most once" were added'),
  'C03-r2-1': ('C03 (sequential-meaning)', 'missed at first: no program used the method form of if, and the differential oracle alone does not see a change that makes every explored schedule wrong in the same way; caught after the program and literal expectations were added'),
  'C03-r2-2': ('C03 (sequential-meaning)', 'missed at first: no program had a downstream stage that ignores its stdin followed by a statement writing to the same stream; caught after the program and its literal expectation were added'),
@@ -52,7 +53,7 @@ for m in re.finditer(r'SEED(2?) (C\d\d)-(\d) check (C\d\d) rc=(\d+) :: (.*?) :: 
     k = key(m.group(1), m.group(2), m.group(3))
     seeds.setdefault(k, {'verify': None, 'checks': []})['checks'].append({'check': m.group(4), 'rc': int(m.group(5)), 'first': m.group(6).strip(), 'summary': m.group(7).strip()})
 # earlier manual confirmations
-MANUAL_OK = {'C21-2', 'C19-2', 'C01-r2-1', 'C01-r2-2', 'C28-r2-2'}
+MANUAL_OK = {'C21-2', 'C19-2', 'C01-r2-1', 'C01-r2-2', 'C28-r2-2', 'C32-r2-1', 'C32-r2-2'}
 for k in ['C01-1','C01-2','C03-1','C03-2','C05-1','C05-2','C26-1','C26-2','C28-1','C28-2']:
     seeds.setdefault(k, {'verify': {"applies":True,"builds":True,"existing_tests_pass":True,"demo_fails_with_change":True,"demo_passes_without_change":True}, 'checks': []})
 rows = []
